@@ -286,7 +286,7 @@ Proof.
       destruct (rep && (f_len f <=? max_buffered)).
       * eapply ack_inv_same; [|exact Hs2]. unfold reader_dies. same_ack_tac.
       * eapply ack_inv_same; [|apply (run_handler_ack_inv cfg (length (peer_sent s)) f HBAll rep s2 Hs2)].
-        unfold reader_dies. same_ack_tac.
+        unfold eof_after_dispatch, reader_dies. same_ack_tac.
   - (* ConnStart *) unfold step_conn_start. destruct (phase s) eqn:Eph; try assumption.
     eapply ack_inv_same; [|exact Hinv]. unfold same_ack; st_simpl_goal; repeat split; auto.
     intros _. rewrite Eph. reflexivity.
